@@ -3,6 +3,8 @@ import RosuModel.Lemmas.CurveCount
 import RosuModel.Lemmas.CurveBezier
 import RosuModel.Lemmas.CurveArc
 import RosuModel.Lemmas.CurveBudget
+import RosuModel.Lemmas.CurveTotal
+import RosuModel.Lemmas.CurveReal
 
 /-!
 # C05 (slider path mathematics) — no panic, termination and vertex bounds of curve generation
@@ -175,6 +177,22 @@ theorem path_vertex_budget (fuel : Nat) (hfuel : 4095 ≤ fuel) (isOsu : Bool) (
     (h : calculatePath (fieldArith T) fuel isOsu pts st = .ok st') :
     st'.path.size ≤ 2049 * pts.size + 1 :=
   calculatePath_budget T fuel hfuel isOsu pts st st' hb hcoord hne h
+
+/-- **`Curve::new` returns** (total correctness in exact arithmetic): for every control-point list
+within the decoder's coordinate limit, any expected distance, any stale buffer content, fuel `4095`
+is enough for BOTH unbounded loops (the bezier stack loop; the `theta_end` loop, given `atan2 ∈
+[−π, π]`) — the model answers `ok`, never `fuel`. -/
+theorem curve_new_terminates_exact (hpi : 0 < T.pi)
+    (hatan : ∀ y x, -T.pi ≤ T.atan2 y x ∧ T.atan2 y x ≤ T.pi) (fuel : Nat) (hfuel : 4095 ≤ fuel)
+    (isOsu : Bool) (pts : Array (CP K)) (expected : Option K) (prev : Array (Pos K)) (bez : Bez K)
+    (hb : BezWF bez) (hcoord : ∀ p ∈ pts.toList, |p.pos.x| ≤ 131072 ∧ |p.pos.y| ≤ 131072) :
+    ∃ c b', curveNew (fieldArith T) fuel isOsu pts expected prev bez = .ok (c, b') :=
+  curveNew_total T hpi hatan fuel hfuel isOsu pts expected prev bez hb hcoord
+
+/-- non-vacuity of the hypotheses on `π` / `atan2`: the real instance -/
+example : 0 < realTransc.pi ∧ ∀ y x : ℝ,
+    -realTransc.pi ≤ realTransc.atan2 y x ∧ realTransc.atan2 y x ≤ realTransc.pi :=
+  ⟨real_pi_pos, real_atan2_range⟩
 
 /-- The `while theta_end < theta_start { theta_end += 2π }` loop of `circular_arc_properties` runs
 at most once when `atan2` answers in `[−π, π]`. -/
